@@ -185,10 +185,19 @@ func VerifC07_ContextAlreadyDone() {
 	}
 	var ctx context.Context
 	var want uint32
-	if verifrt.Choose("cause", 2) == 0 {
+	switch verifrt.Choose("cause", 4) {
+	case 0:
 		ctx, want = newVerifDoneCtx(context.Canceled), sys.ExitCodeContextCanceled
-	} else {
+	case 1:
 		ctx, want = newVerifDoneCtx(context.DeadlineExceeded), sys.ExitCodeDeadlineExceeded
+	case 2: // a real context cancelled the plain way
+		c, cancel := context.WithCancel(bg)
+		cancel()
+		ctx, want = c, sys.ExitCodeContextCanceled
+	case 3: // a real context cancelled with an explicit cause: Err() is still context.Canceled
+		c, cancel := context.WithCancelCause(bg)
+		cancel(errVerifHost)
+		ctx, want = c, sys.ExitCodeContextCanceled
 	}
 	verifrt.SetStepBudget(3000000, "call with a done context does not return")
 	_, err = vi.inst.ExportedFunction("f").Call(ctx)
